@@ -55,7 +55,7 @@ DrawCol(st, i, k, fuel) ==
 
 RowDeg(M, i) == Cardinality({ e \in M : e[1] = i })
 
-Complete(st, i, k) ==
+CompleteRow(st, i, k) ==
     LET st1 == IF RowDeg(st.M, i) = 0
                THEN LET d == PMRand(st.s, k)
                     IN  [st EXCEPT !.s = d[1], !.draws = st.draws + 1, !.M = st.M \cup { <<i, d[2]>> },
@@ -69,7 +69,7 @@ LeftMatrix(k, r, N1, seed) ==
                  ins |-> <<>>, added |-> 0 ]
         slots == [ x \in 1 .. L |-> (x - 1) \div N1 ]         \* column of each of the k*N1 slots
         st1 == FoldLeft(LAMBDA st, j : LeftSlot(st, j, L, r), st0, slots)
-    IN  FoldLeft(LAMBDA st, i : Complete(st, i, k), st1, [ x \in 1 .. r |-> x - 1 ])
+    IN  FoldLeft(LAMBDA st, i : CompleteRow(st, i, k), st1, [ x \in 1 .. r |-> x - 1 ])
 
 (* the parity-check system as rows of ESIs: source j -> ESI j, repair i -> ESI k+i *)
 HFromLeft(M, k, r) ==
